@@ -562,6 +562,9 @@ def run_cfg(ctx, p, cfg):
     feats = set(p.meta.get("features", []))
     bg = "background_rotation" in feats
     rule_shift_order(ctx, p, cfg, "R1")
+    if "config_parsing" in feats:
+        from rules import c14
+        c14.rule_roller_window_from_document(ctx, p, cfg, "R16")   # "base b and count c" are the document's when the roller comes from a file
 
     rule_range(ctx, p, cfg, "R2")
     rule_final_step(ctx, p, cfg, "R3")
